@@ -13,7 +13,9 @@ PROP = dict(
         "C05_peephole1_sound", "C05_peephole2_sound", "C05_peephole3_sound", "C05_fires_sound",
         "C05_pass_segments", "C05_labels_preserved", "C05_pass_sound_block", "C05_chain_sound_block",
         "C05_pass_label_split", "C05_optimize_label_split", "C05_without_imm_sound", "C05_expand_immediates_sound",
-        "C05_expand_immediates_labels", "C05_expand_threshold_int", "C05_expand_threshold_float", "C05_optimize_sound_partial",
+        "C05_expand_immediates_labels", "C05_expand_threshold_int", "C05_expand_threshold_float", "C05_expand_threshold_none",
+        "C05_rule_dup_pop_needs_stack", "C05_rule_load_first_needs_offsets", "C05_fold_int_none_of_error",
+        "C05_fold_float_needs_roundtrip", "C05_optimize_sound_partial",
         "C05_pass_sound", "C05_pass_sound_at_label", "C05_optimize_sound",
     ],
     harness_bin="c05",
@@ -73,12 +75,13 @@ PROP = dict(
                "after pushing the constant (incl. errors); each of the 25 peephole rules replaces its window by code with the same outcome "
                "(state, control, error kind); the rule tables, the pass and the fixpoint are transliterated and shown to only copy lines or "
                "rewrite label-free windows by fired rules, keeping the label sequence; a pass and the fixpoint preserve the outcome of every "
-               "finished whole-program run (forward simulation through labels, calls and returns); expand_immediates is outcome-preserving for every pool. Tied to /repo on every run by exact comparison of "
+               "finished whole-program run (forward simulation through labels, calls and returns); expand_immediates is outcome-preserving for every pool in the block semantics, and an immediate survives it iff its pool index is <= 65535. Tied to /repo on every run by exact comparison of "
                "Opt.optimize with the real optimizer on corpus and generated programs, and by optimizer-on/off and literal/variable oracles.",
     level_note="C05_optimize_sound is proved for a single thread on labelled programs with symbolic code addresses (Asm.runG: labels, "
                "jumps, calls pushing return continuations, returns, halt) in the forward direction: every finished run of the original that "
-               "meets the two side conditions (stated as the checked semantics not reaching `sideFail`, for the original and the intermediate "
-               "programs of the fixpoint) is a run of the optimized program with the same final outcome. Still open: the converse simulation "
+               "meets the two side conditions (stated as: the checked run of the original and of EVERY iterate of `pass` on it, also past the "
+               "fixpoint, does not end in `sideFail`) is a run of the optimized program with the same final outcome. "
+               "C05_expand_immediates_sound is about the block semantics only (not lifted to runG, not composed with optimize). Still open: the converse simulation "
                "(preservation of divergence), several green threads, label-to-address resolution. Float arithmetic and printing are parameters; "
                "the float folds assume parse∘to_string = id on non-NaN values; the constant pool of expand_immediates is an input.",
     technique="Lean 4 theorems (symbolic execution of windows over an abstract stack machine, induction over the pass) + differential "
